@@ -297,7 +297,7 @@ func cmdProp(args []string) int {
 				retried++
 			}
 		}
-		if retried > 0 && retried <= 12 && *tier != "thorough" {
+		if retried > 0 && retried <= 12 && *tier != "thorough" && os.Getenv("VERIF_NO_RETRY") == "" {
 			rdir := filepath.Join(dir, "retry")
 			os.MkdirAll(rdir, 0o755)
 			rp := 4
@@ -465,7 +465,7 @@ func cmdProp(args []string) int {
 		// a call-site / statement-site clause speaks about EVERY matching call or statement: a further
 		// instance (suffix #k) of a clause that is claimed is part of the claim, not a new obligation
 		universal := false
-		if o.Kind == "callsite" || o.Kind == "site" {
+		if o.Kind == "callsite" || o.Kind == "site" || o.Kind == "own/monotone-map" || o.Kind == "own/insert-only-map" {
 			if i := strings.LastIndex(name, "#"); i > 0 {
 				if _, err := strconv.Atoi(name[i+1:]); err == nil {
 					if _, ok := base.Claimed[name[:i]]; ok {
